@@ -274,6 +274,15 @@ impl Prop for C18 {
                         ops.push(Op::Gap(r.range(1, 3) as u32));
                         ops.push(Op::Release(c));
                     }
+                    if r.chance(250) {
+                        // a TCP client polls (a request that changes nothing, answered with a wake-up
+                        // of the loop) more often than the idle time: that is not keyboard activity
+                        let n = (2 * t + 40) / (t / 2 + 1).max(1);
+                        for _ in 0..n {
+                            ops.push(Op::Gap((t / 2 + 1) as u32));
+                            ops.push(Op::Vkey("no-such-virtual-key".into(), 0));
+                        }
+                    }
                     ops.push(Op::Gap((t + 30 + r.range(0, 40)) as u32));
                 }
                 case.ops = ops;
@@ -686,6 +695,10 @@ impl Prop for C18 {
                     let li = inputs.iter().filter(|x| **x + 2 <= *f).max().copied().unwrap_or(0);
                     if *f < li + t {
                         o.set_fail("C18:on-idle-fired-early", format!("T={t}: fired at tick {f}, last input arrived at {li}: {}", outs_short(&st.trace.outs)), vec![]);
+                    }
+                    // ... and not long after it has: nothing but key events postpones it
+                    if *f > li + t + 15 && !o.failed() {
+                        o.set_fail("C18:on-idle-fired-late", format!("T={t}: the last key event arrived at {li}, on-idle fired only at tick {f}: {}", outs_short(&st.trace.outs)), vec![]);
                     }
                     // belongs to exactly one arming window
                     let w = arm_windows.iter().position(|(s, e)| *f > *s && *f <= e.saturating_add(t + 8));
